@@ -374,7 +374,7 @@ void run_C04(void) {
     case_end(1);
   }
   // products on worst-case operands: every kernel, ref and avx2
-  static const int FAMS[] = {QF_ALLMAX, QF_ALTERNATE, QF_SINGLEMAX, QF_NONCANON, QF_NEARMULT, QF_WORD32, QF_WORD32MAX, QF_MIXEDWIDTH, QF_HIGH32, QF_LANESPLIT};
+  static const int FAMS[] = {QF_ALLMAX, QF_ALTERNATE, QF_SINGLEMAX, QF_NONCANON, QF_NEARMULT, QF_WORD32, QF_WORD32MAX, QF_MIXEDWIDTH, QF_HIGH32, QF_LANESPLIT, QF_POW2, QF_SPARSE};
   for (int k = 0; k < N_KERNELS; k++)
     for (int avx2 = 0; avx2 <= 1; avx2++) {
       if (!q120_kernel_has((q120_kernel_t)k, avx2)) continue;
@@ -462,4 +462,7 @@ void run_C04(void) {
     ops_lifecycle_case("C04 objects", LKM_NTT | LKM_INTT | LKM_BBC | LKM_BAA | LKM_BBB, (rep % 4) == 3 ? DISP_GENERIC : DISP_NATIVE, 160, 0, rep, "lifecycle_uses");
   for (unsigned rep = 0; rep < (G.thorough ? 12u : 6u); rep++)
     ops_lifecycle_case("C04 objects", LKM_BBC | LKM_BAA | LKM_BBB, DISP_NATIVE, 0, (G.thorough && rep < 3) ? 66000 : 300 + 57 * (int)rep, rep, "lifecycle_uses");
+  // several threads creating, using and destroying their own modules / tables at the same time
+  for (unsigned rep = 0; rep < (G.thorough ? 60u : 8u); rep++)
+    ops_concurrent_lifecycle_case("C04 objects", LKM_NTT | LKM_INTT | LKM_BBC | LKM_BAA | LKM_BBB, (rep % 4) == 3 ? DISP_GENERIC : DISP_NATIVE, rep & 1 ? 8 : 4, 120, rep, "concurrent_lifecycle_uses");
 }
